@@ -691,11 +691,16 @@ class TaskScenario(ScenarioData):
             self.isRunAway = True
             return False
         # The slot test above is blind inside the last slot: a date typed on the task itself that
-        # lies after the project end (or before its start) does not fit either
+        # lies after the project end (or before its start) does not fit either, and neither does
+        # a task whose typed start lies after its typed end
         own_start = self.property.get("start", self.scenarioIdx) if self.property.provided("start", self.scenarioIdx) else None
         own_end = self.property.get("end", self.scenarioIdx) if self.property.provided("end", self.scenarioIdx) else None
         for typed in (own_start, own_end):
             if isinstance(typed, datetime) and not self.project["start"] <= typed <= self.project["end"]:
+                self.isRunAway = True
+                return False
+        if isinstance(own_start, datetime) and isinstance(own_end, datetime):
+            if own_start > own_end or (self.property.get("milestone", self.scenarioIdx) and own_start != own_end):
                 self.isRunAway = True
                 return False
 
